@@ -268,75 +268,65 @@ theorem C11_lookup_wildcard (before after : Table) (d : OptDecl) (h body tl : By
 
 /-! ## memory safety of the tokeniser: reads bounded by the terminating NUL
 
-Full-strength statement (FALSE on the code as it exists, see the counterexamples below):
-
-  theorem C11_in_bounds : ∀ buf i, NoNul buf → i ≤ buf.length →
-      pSkipToMatchingQuote buf i ≠ none            -- every read index ≤ index of the NUL
-
-and, on the list model:  ∀ cfg s st, (parseStr cfg s st).1 ≠ .overread
+History: before ampl/mp 7d345ba `SkipToMatchingQuote` was `while (*s != quote) ++s; return ++s;`.
+The statement below was then false; the model had an `Outcome.overread`, and the proved
+counterexamples `C11_counterexample_unterminated_quote(_ptr)` (option text `x='`: the scan read
+index 4 of a 3-byte string whose NUL is at index 3) were reproduced by this check on the real code
+under AddressSanitizer (known finding C11-unterminated-quote-overread, now fixed).
 -/
 
-/-- The four `while (*s && …)` scanners (`SkipSpaces`, `SkipNonSpaces`, `SkipToEnd`, the name
-scan) read only indices ≤ the index of the NUL, for every buffer, every start position inside
-it and every byte class; and they compute the list model's `dropWhile`. -/
-theorem C11_in_bounds_partial (p : UInt8 → Bool) (buf : Bytes) (hn : NoNul buf) (i : Nat) (hi : i ≤ buf.length) :
-    ∃ j, pScan p buf i = some j ∧ i ≤ j ∧ j ≤ buf.length ∧ buf.drop j = (buf.drop i).dropWhile p :=
-  pScan_spec p buf hn i hi
+/-- **In bounds.**  Every scanner of the tokeniser — the four `while (*s && …)` loops
+(`SkipSpaces`, `SkipNonSpaces`, `SkipToEnd`, the name scan; any byte class `p`) from any position
+inside the string, and `SkipToMatchingQuote` followed by the closing-quote skip from any quote
+inside the string — reads only indices ≤ the index of the terminating NUL (the pointer machines
+return `none` on any read beyond it), ends at a position ≤ that index, and computes exactly what
+the list model computes; for every NUL-free buffer. -/
+theorem C11_in_bounds (buf : Bytes) (hn : NoNul buf) :
+    (∀ (p : UInt8 → Bool) (i : Nat), i ≤ buf.length →
+      ∃ j, pScan p buf i = some j ∧ i ≤ j ∧ j ≤ buf.length ∧ buf.drop j = (buf.drop i).dropWhile p) ∧
+    (∀ (i : Nat) (hi : i < buf.length),
+      ∃ j k, pSkipToMatchingQuote buf i = some j ∧ j ≤ buf.length ∧ pAfterQuote buf j = some k ∧ k ≤ buf.length ∧
+        (buf.drop (i + 1)).take (j - (i + 1)) = (skipToMatchingQuote buf[i] (buf.drop (i + 1))).1 ∧
+        buf.drop k = (skipToMatchingQuote buf[i] (buf.drop (i + 1))).2) :=
+  ⟨fun p i hi => pScan_spec p buf hn i hi, fun i hi => pSkipToMatchingQuote_spec buf hn i hi⟩
 
-/-- `SkipToMatchingQuote` stays within the string **iff** a closing quote exists: it reads beyond
-the NUL exactly when the list model reports an over-read. -/
-theorem C11_in_bounds_quote_iff (buf : Bytes) (i : Nat) (hi : i < buf.length) (hq : buf[i] ≠ 0) :
-    pSkipToMatchingQuote buf i = none ↔ skipToMatchingQuote buf[i] (buf.drop (i + 1)) = none := by
-  unfold pSkipToMatchingQuote skipToMatchingQuote
-  rw [rd_lt hi]
-  simp only [pFind_spec buf[i] hq buf (i + 1) (by omega)]
-  cases findByte buf[i] (buf.drop (i + 1)) <;> simp
+/-- On the list model every outcome other than normal termination is an exception of the C++
+code (there is no over-read outcome any more): `parseStr` is total and returns one of
+ok / logic_error / mp::Error / InvalidOptionValue for every byte string. -/
+theorem C11_outcomes (cfg : Cfg) (s : Bytes) (st : St) :
+    (parseStr cfg s st).1 = .ok ∨ (parseStr cfg s st).1 = .threwLogic ∨
+    (parseStr cfg s st).1 = .threwError ∨ (parseStr cfg s st).1 = .threwInvalid := by
+  cases (parseStr cfg s st).1 <;> simp
 
-/-- **Counterexample (pointer level).**  Buffer `x='` (3 bytes + NUL), `s` at the quote (index 2):
-the scan reads index 4, beyond the NUL at index 3. -/
-theorem C11_counterexample_unterminated_quote_ptr : pSkipToMatchingQuote [120, 61, 39] 2 = none :=
-  (C11_in_bounds_quote_iff [120, 61, 39] 2 (by decide) (by decide)).mpr (by decide)
+/-- An unterminated quoted value (the former failing input class) now takes the rest of the
+string as the value and parsing ends normally. -/
+theorem C11_unterminated_quote_total (cfg : Cfg) (st : St) (lead key body : Bytes) (sep : Sep) (q : UInt8)
+    (d : OptDecl) (ob : Option Bytes)
+    (hlead : Blank lead) (hkey : KeyOk key) (hsep : sep.WF) (hpre : sep.eq = false → sep.pre ≠ [])
+    (hl : lookup cfg.table key = some (d, ob)) (hk : d.kind = .str) (hcl : cfg.cmdLine = false)
+    (hq : isQuote q = true) (hb : ∀ c ∈ body, c ≠ q) :
+    parseStr cfg (lead ++ (key ++ (sep.render ++ q :: body))) st =
+      (.ok, doEcho cfg.noEcho d ((noteMatch d key ob st).modify d.id (setValue d (.str body)))) := by
+  have hq' := hq
+  simp [isQuote] at hq'
+  have f1 : isSpace q = false := by simp [isSpace]; omega
+  have hrest : RestOk sep (q :: body) := by
+    refine ⟨by simp [StopsAt, f1], fun he => ⟨?_, fun hp => absurd hp (hpre he)⟩⟩
+    have : q.toNat ≠ 61 := by omega
+    simp [StopsAt, this]
+  have hnq : isQuery (q :: body) = false := by
+    have : q.toNat ≠ 63 := by omega
+    simp [isQuery, this]
+  have hstep : step cfg (lead ++ (key ++ (sep.render ++ q :: body))) st =
+      .cont [] (doEcho cfg.noEcho d ((noteMatch d key ob st).modify d.id (setValue d (.str body)))) := by
+    rw [step_header cfg st hlead hkey hsep hrest, findOption_of_lookup hl]
+    simp [hnq, hk, parseValue, hcl, parseStrVal_unterminated hq hb]
+  rw [parseStr_cont hstep]
+  exact parseStr_done (step_blank_done cfg _ Blank.nil)
 
 def cxTable : Table := buildTable [{ id := 0, name := [120], syns := [], kind := .str },
                                    { id := 1, name := [98, 105, 103], syns := [], kind := .int }]
 def cxCfg : Cfg := { table := cxTable, noEcho := true, cmdLine := false, throwing := false }
-
-/-- **Counterexample (parser level).**  With a string option `x`, the option text `x='` taken from
-an environment variable makes `ParseOptionString` read beyond the terminating NUL. -/
-theorem C11_counterexample_unterminated_quote :
-    (parseStr cxCfg [120, 61, 39] (initState [{ id := 0, name := [120], syns := [], kind := .str }])).1 = .overread := by
-  have h : step cxCfg [120, 61, 39] (initState [{ id := 0, name := [120], syns := [], kind := .str }]) =
-      .stop .overread (initState [{ id := 0, name := [120], syns := [], kind := .str }]) := by rfl
-  rw [parseStr_stop h]
-
-/-- An over-read can only come from an unterminated quote at the start of a string option's
-value read from an environment variable (never on the command line). -/
-theorem C11_overread_only_unterminated_quote (cfg : Cfg) (d : OptDecl) (s : Bytes) (st st' : St)
-    (h : parseValue cfg d s st = .stop .overread st') :
-    cfg.cmdLine = false ∧ ∃ q r, s = q :: r ∧ isQuote q = true ∧ findByte q r = none := by
-  unfold parseValue at h
-  split at h
-  · cases h
-  · simp only at h; split at h <;> cases h
-  · cases h
-  · split at h
-    · rename_i hp
-      unfold parseStrVal at hp
-      split at hp
-      · cases hp
-      · rename_i hcl
-        split at hp
-        · rename_i c r
-          split at hp
-          · rename_i hq
-            refine ⟨by simpa using hcl, c, r, rfl, hq, ?_⟩
-            unfold skipToMatchingQuote at hp
-            split at hp
-            · assumption
-            · cases hp
-          · cases hp
-        · cases hp
-    · cases h
 
 /-! ## integer values outside `int`
 
@@ -382,6 +372,14 @@ example : parseStr cxCfg ([] ++ renderAll [(.assign [98, 105, 103] { pre := [], 
     = (.ok, applyAll cxCfg [(.assign [98, 105, 103] { pre := [], eq := true, post := [] } (.int { sign := none, ds := [52, 50] }), [])] cxSt0) :=
   C11_faithful cxCfg rfl _ C11_nonvacuous_items_wf [] Blank.nil cxSt0
 example : (Lit.int { sign := none, ds := [52, 50] }).val = .int 42 := by decide
+-- the former over-read input `x='` and `x='ab`: parsed normally, value = rest of the string
+example : parseStr cxCfg [120, 61, 39] cxSt0 = (.ok, cxSt0) := by
+  rw [parseStr_cont (s' := []) (st' := cxSt0) (by rfl)]
+  exact parseStr_done (by rfl)
+example : parseStr cxCfg [120, 61, 39, 97, 98] cxSt0 =
+    (.ok, { slots := [{ val := .str [97, 98] }, { val := .int 0 }] }) := by
+  rw [parseStr_cont (s' := []) (st' := { slots := [{ val := .str [97, 98] }, { val := .int 0 }] }) (by rfl)]
+  exact parseStr_done (by rfl)
 -- strtod extent: "1.5e3x" consumes 5 bytes, "0x" consumes 1, "nan(1)" consumes 6
 example : (parseDbl [49, 46, 53, 101, 51, 120]).2 = [120] := by decide
 example : (parseDbl [48, 120]).2 = [120] := by decide
